@@ -172,10 +172,18 @@ var oracleNonMutating = map[string]bool{
 type config struct {
 	mode           string // none | htpasswd | mtls
 	allow, metrics bool
+	// idle: the server also runs with a non-zero idle_timeout (one of the "other options" of C13: it
+	// wraps the handlers once more after the authentication wrappers were chosen).  Not part of the
+	// Coq configuration term: the model's answer must not depend on it.
+	idle bool
 }
 
 func (c config) String() string {
-	return fmt.Sprintf("auth=%s,allow_unauthenticated_reads=%v,enable_endpoint_metrics=%v", c.mode, c.allow, c.metrics)
+	s := fmt.Sprintf("auth=%s,allow_unauthenticated_reads=%v,enable_endpoint_metrics=%v", c.mode, c.allow, c.metrics)
+	if c.idle {
+		s += ",idle_timeout=1h"
+	}
+	return s
 }
 func (c config) coq() string {
 	m := map[string]string{"none": "MNone", "htpasswd": "MHtpasswd", "mtls": "MMTLS"}[c.mode]
@@ -494,7 +502,7 @@ func (e *env) direct() {
 			text := fmt.Sprintf("direct GrpcBasicAuth allow=%v cred=%s obs=%s", allow, b.name, obs)
 			idx := e.addCase(fmt.Sprintf("CBasicDirect %s %s %s", CB(allow), CS(b.name), CS(string(obs))), text)
 			if b.scope != "http" { // an HTTP-only row: its label says nothing about gRPC
-				e.oracleGrpc(idx, config{"htpasswd", allow, false}, b, peerCreds[0], obs, text, "direct")
+				e.oracleGrpc(idx, config{mode: "htpasswd", allow: allow}, b, peerCreds[0], obs, text, "direct")
 			}
 		}
 		mu, ms := server.GRPCmTLSUnaryServerInterceptor(allow), server.GRPCmTLSStreamServerInterceptor(allow)
@@ -507,7 +515,7 @@ func (e *env) direct() {
 			e.evals += len(e.methods)
 			text := fmt.Sprintf("direct GRPCmTLS interceptors allow=%v peer=%s obs=%s", allow, p.name, obs)
 			idx := e.addCase(fmt.Sprintf("CMtlsDirect %s %s %s", CB(allow), CS(p.name), CS(string(obs))), text)
-			e.oracleGrpc(idx, config{"mtls", allow, false}, basicCreds[0], p, obs, text, "direct")
+			e.oracleGrpc(idx, config{mode: "mtls", allow: allow}, basicCreds[0], p, obs, text, "direct")
 		}
 	}
 }
@@ -546,6 +554,9 @@ func (e *env) startServer(c config, tag string) (*srvProc, error) {
 		}
 		if c.metrics {
 			args = append(args, "--enable_endpoint_metrics")
+		}
+		if c.idle {
+			args = append(args, "--idle_timeout", "1h")
 		}
 		p.cmd = exec.Command(e.bin, args...)
 		p.cmd.Stdout, p.cmd.Stderr = p.out, p.out
@@ -929,7 +940,7 @@ func (e *env) runConfig(c config, tag string) {
 func authDriver(seed uint64, n int, outV, outJSON string, _ []string) {
 	t0 := time.Now()
 	rep := NewReport("auth", seed)
-	rep.Rule = "EXHAUSTIVE (seed/n unused): (a) GrpcBasicAuth and GRPCmTLS interceptors called directly for every registered method x every credential-table row x allow_unauthenticated_reads; (b) the real server binary started for each of {no auth, htpasswd, mTLS} x allow_unauthenticated_reads x enable_endpoint_metrics and every registered gRPC method / every {GET,HEAD,PUT,POST,DELETE} x {/cas,/ac,/status,/metrics} called per credential row; one case = one (layer, configuration, credential) row of observations; distinct = distinct case texts"
+	rep.Rule = "EXHAUSTIVE (seed/n unused): (a) GrpcBasicAuth and GRPCmTLS interceptors called directly for every registered method x every credential-table row x allow_unauthenticated_reads; (b) the real server binary started for each of {no auth, htpasswd, mTLS} x allow_unauthenticated_reads x enable_endpoint_metrics (plus htpasswd and mTLS combined with a non-zero idle_timeout) and every registered gRPC method / every {GET,HEAD,PUT,POST,DELETE} x {/cas,/ac,/status,/metrics} called per credential row; one case = one (layer, configuration, credential) row of observations; distinct = distinct case texts"
 	dir, err := os.MkdirTemp("", "verif-auth-")
 	must(err)
 	tempDir = dir
@@ -978,7 +989,7 @@ func authDriver(seed uint64, n int, outV, outJSON string, _ []string) {
 	for _, mode := range []string{"none", "htpasswd", "mtls"} {
 		for _, allow := range []bool{false, true} {
 			for _, metrics := range []bool{false, true} {
-				c := config{mode, allow, metrics}
+				c := config{mode: mode, allow: allow, metrics: metrics}
 				tag := fmt.Sprintf("%s-%v-%v", mode, allow, metrics)
 				wg.Add(1)
 				go func() {
@@ -989,6 +1000,23 @@ func authDriver(seed uint64, n int, outV, outJSON string, _ []string) {
 				}()
 			}
 		}
+	}
+	// authentication combined with idle_timeout: the idle-timer wrapper goes around the handlers AFTER
+	// the authentication wrappers were selected, so it must not replace them
+	for _, c := range []config{
+		{mode: "htpasswd", allow: false, metrics: false, idle: true},
+		{mode: "htpasswd", allow: true, metrics: true, idle: true},
+		{mode: "mtls", allow: false, metrics: true, idle: true},
+	} {
+		c := c
+		tag := fmt.Sprintf("%s-%v-%v-idle", c.mode, c.allow, c.metrics)
+		wg.Add(1)
+		go func() {
+			defer wg.Done()
+			sem <- struct{}{}
+			defer func() { <-sem }()
+			e.runConfig(c, tag)
+		}()
 	}
 	wg.Wait()
 
